@@ -684,3 +684,45 @@ def rule_X7(F, R):
                 n_get += 1
                 R.ok("X7", "object store: the salt returned is read from the store", where(gs, sp=st["sp"]))
         R.floor("X7", "successful returns of the stored salt", n_get, 1)
+
+
+# (function, kind, ordinal) -> why the site cannot fire on any input
+X8_ALLOW = {
+    (ENC + "::Cryptor::unseal", "copy_from_slice", 1): "the source is Envelope.nonce, which from_bytes cuts as exactly [1..1+NONCE_LEN] (checked by X4 `slices`), the destination is [0u8; NONCE_LEN]",
+    (ENC + "::Envelope::<'a>::from_bytes", "assert:Overflow", 1): "1 + NONCE_LEN on constants",
+    (ENC + "::Envelope::<'a>::from_bytes", "assert:Overflow", 2): "1 + NONCE_LEN on constants",
+    (ENC + "::Envelope::<'a>::from_bytes", "assert:Overflow", 3): "1 + NONCE_LEN on constants",
+    (ENC + "::Envelope::<'a>::from_bytes", "assert:BoundsCheck { len: move _13, index: copy _12 }", 1): "buf[0] under the guard len > 1 + NONCE_LEN (checked by X4 `length-check`)",
+    (ENC + "::Envelope::<'a>::from_bytes", "indexing", 1): "buf[1..1+NONCE_LEN] under the guard len > 1 + NONCE_LEN",
+    (ENC + "::Envelope::<'a>::from_bytes", "indexing", 2): "buf[1+NONCE_LEN..] under the guard len > 1 + NONCE_LEN",
+    (ENC + "::Cryptor::make_aad", "assert:BoundsCheck { len: const 17_usize, index: copy _4 }", 1): "aad[0] of a [u8; 17]",
+    (ENC + "::Cryptor::make_aad", "indexing", 1): "aad[1..] of a [u8; 17]",
+    (ENC + "::Cryptor::make_aad", "copy_from_slice", 1): "16 bytes of a uuid into aad[1..] of a [u8; 17]",
+}
+
+
+def rule_X8(F, R):
+    R.begin("X8", "bytes that come back from a remote are untrusted: in the cone of Cryptor::unseal (envelope parsing, AAD, opening) no panic construct is reachable except the listed sites whose bounds are established by the length guard or by constant sizes. Modified, truncated or foreign data must be rejected with an error, and a panic is not an error the caller can handle")
+    import r_panic
+    start = ENC + "::Cryptor::unseal"
+    if start not in F.bodies:
+        R.missing("X8", "Cryptor::unseal")
+        return
+    cone = sorted(q for q in F.reachable_from([start]) if q in F.bodies)
+    n = 0
+    used = set()
+    for q in cone:
+        b = F.bodies[q]
+        for (kind, k, bb, desc, sp) in r_panic.panic_sites_in(F, b):
+            n += 1
+            key = (q, kind, k)
+            # bounds-check messages name MIR locals: match them by their shape
+            key2 = (q, re.sub(r"_\d+", "_N", kind), k)
+            allow = {(a, re.sub(r"_\d+", "_N", b_), c_): v for (a, b_, c_), v in X8_ALLOW.items()}
+            if key2 in allow:
+                used.add(key2)
+                R.ok("X8", "allow-listed: %s #%d in %s (%s)" % (kind, k, q.split("::")[-1], allow[key2]), where(b, sp=sp))
+            else:
+                R.violation("X8", q, "%s#%d" % (re.sub(r"_\d+", "_N", kind), k), "%s at %s is reachable while opening bytes received from a remote: data that is not a well-formed envelope must be answered with an error, not a panic" % (desc, loc(sp)), where(b, sp=sp))
+    R.floor("X8", "panic sites examined in the cone of Cryptor::unseal", n, 8)
+    R.info("X8", "functions in the cone: %s" % ", ".join(x.split("::")[-1] for x in cone))
